@@ -10,6 +10,20 @@ import (
 type Function struct {
 	name         string
 	logicHandler r.FuncExecutor
+	// module - the module the method is defined in (nil for methods of native code):
+	// wherever the method value travels, its body runs there
+	module *r.Module
+}
+
+// SetModule - record the module that defines this method
+func (fn *Function) SetModule(module *r.Module) *Function {
+	fn.module = module
+	return fn
+}
+
+// GetModule - the module that defines this method (nil: unknown / native code)
+func (fn *Function) GetModule() *r.Module {
+	return fn.module
 }
 
 func NewFunction(executor r.FuncExecutor) *Function {
